@@ -17,6 +17,9 @@ func (ex *Exec) evalExpr(st *State, e ast.Expr) Val {
 		if b, isB := tv.Type.Underlying().(*types.Basic); isB && b.Info()&(types.IsInteger|types.IsBoolean|types.IsString) != 0 {
 			return constVal(tv.Value, tv.Type)
 		}
+		if b, isB := tv.Type.Underlying().(*types.Basic); isB && b.Info()&types.IsFloat != 0 {
+			return SV{T: Var("float$"+sanitize(tv.Value.ExactString()), SInt)}
+		}
 	}
 	switch n := e.(type) {
 	case *ast.BasicLit:
@@ -33,6 +36,10 @@ func (ex *Exec) evalExpr(st *State, e ast.Expr) Val {
 				s = s[1 : len(s)-1]
 			}
 			return SV{T: StrLit(s)}
+		}
+		if n.Kind == token.FLOAT {
+			// floating-point literals are opaque constants (no float arithmetic is modelled)
+			return SV{T: Var("float$"+sanitize(n.Value), SInt)}
 		}
 		panic(unsupported("literal %s at %s", n.Value, ex.pos(e)))
 	case *ast.ParenExpr:
@@ -392,6 +399,34 @@ func (ex *Exec) coerce(st *State, v Val, from, to types.Type) Val {
 		}
 		return v
 	}
+	// a repository struct (or pointer to one) stored in an interface: an opaque object identified by its fields
+	if _, toIface := to.Underlying().(*types.Interface); toIface && !isVariableType(to) && !isErrorType(to) {
+		if sv, ok := v.(*StructV); ok {
+			var ts []*Term
+			g := map[string]Val{}
+			for _, fd := range sv.K.Fields {
+				g[fd.Name] = sv.F[fd.Name]
+				switch fv := sv.F[fd.Name].(type) {
+				case SV:
+					if fv.T.Sort == SInt {
+						ts = append(ts, fv.T)
+					} else if fv.T.Sort == SStr {
+						ts = append(ts, App("str.id", SInt, fv.T))
+					}
+				case *ObjV:
+					ts = append(ts, fv.ID)
+				case *RefV:
+					if fv.Cell != nil {
+						ts = append(ts, IntLit(int64(1000000+fv.Cell.id)))
+					}
+				}
+			}
+			for len(ts) < 3 {
+				ts = append(ts, Zero)
+			}
+			return &ObjV{K: kindOf(to), ID: App("box."+shortName(sv.K.Name), SInt, ts[:3]...), Ghost: g}
+		}
+	}
 	if isVariableType(to) && !isVariableType(from) {
 		sv, ok := v.(SV)
 		if !ok {
@@ -735,10 +770,10 @@ func (ex *Exec) traceEvent(st *State, name string, args ...*Term) {
 		cur = SV{T: Var("trace0", SInt)}
 	}
 	a := append([]*Term{cur.T, StrLit(name)}, args...)
-	for len(a) < 4 {
+	for len(a) < 3 {
 		a = append(a, Zero)
 	}
-	st.store[c] = SV{T: App("trace.ev", SInt, a[:4]...)}
+	st.store[c] = SV{T: App("trace.ev", SInt, a[:3]...)}
 }
 
 var theTraceCell = newCell("$trace")
@@ -900,6 +935,11 @@ func (ex *Exec) evalCall(st *State, call *ast.CallExpr) Val {
 		return v
 	}
 	// unknown external function: uninterpreted result, no modelled side effects
+	if ex.apiObj != nil {
+		// circuit-definition code must be a deterministic function of its inputs: only the API table, the gadgets
+		// and contracted helpers may be called
+		ex.fail("determinism", ex.site("determinism"), "circuit code calls "+key+", which is outside the modelled API (time, randomness, I/O and unknown libraries would make the emitted constraints depend on more than the dimensions)", call)
+	}
 	ex.note("unmodelled external call %s: result unconstrained, no side effects assumed", key)
 	ex.nullableResults = true
 	res := ex.freshResult(st, sig, "r."+f.Name())
